@@ -116,3 +116,11 @@ Proof.
   cbv [set_timer buf line_rcvd await_titan titan content timer tr closing sent next_id pending].
   destruct r, cl, se; reflexivity.
 Qed.
+
+(* __init__, connection_made, REQUEST_TIMEOUT *)
+Lemma init_tie : gen_init blank = (blank, []).
+Proof. reflexivity. Qed.
+Lemma connection_made_tie : gen_connection_made (fst (gen_init blank)) = (init, []).
+Proof. reflexivity. Qed.
+Lemma request_timeout_value : gen_request_timeout_ms = 30000%N.
+Proof. reflexivity. Qed.
